@@ -70,7 +70,8 @@ def simulated(hid, inst, kind, nagents, r):
     dist = distribution_for(kind, dcop, cg, r)
     rec = ProtocolRecorder([n.name for n in cg.nodes]).install()
     try:
-        w = OrchWorld(dcop, algo, cg, dist, infinity=INFV, seed=r.randrange(10 ** 6))
+        collect = r.choice(["value_change", "value_change", "cycle_change"])     # the metrics collection mode of the run
+        w = OrchWorld(dcop, algo, cg, dist, infinity=INFV, seed=r.randrange(10 ** 6), metrics_on=collect)
         # an agent that hosts nothing may come up late: after the orchestrator has handled the run request
         late = [a for a in sorted(dcop.agents)[-spare:] if a not in dist.agents or not dist.computations_hosted(a)][:1] if spare and r.random() < 0.35 else []
         # (otherwise the agents start in a random order, lazily half of the time: an idle agent may well register before a hosting one)
@@ -83,7 +84,7 @@ def simulated(hid, inst, kind, nagents, r):
         rec.uninstall()
     if w.exc:
         stuck = (stuck or "") + " exception in %s handling %s: %s" % (w.exc[0][0], w.exc[0][3], w.exc[0][4])
-    return outcome(hid, inst, doms, dcop, w.orch, stuck, INFV), {"mode": "simulated", "dist": kind, "agents": nagents, "steps": dict(w.phase_steps),
+    return outcome(hid, inst, doms, dcop, w.orch, stuck, INFV), {"mode": "simulated", "dist": kind, "agents": nagents, "steps": dict(w.phase_steps), "collect": collect,
                                                                    "proto": rec.record(hid, dist, over=not stuck, agents=list(dcop.agents))}
 
 
@@ -106,7 +107,8 @@ def threaded(hid, inst, kind, nagents, r):
         return _orig_start(agent, *a, **k)
     _Agent.start = _start
     try:
-        orch = run_local_thread_dcop(algo, cg, dist, dcop, INFV)
+        collect = r.choice(["value_change", "cycle_change", "period"])
+        orch = run_local_thread_dcop(algo, cg, dist, dcop, INFV, collect_moment=collect, period=0.05 if collect == "period" else None)
         stuck = ""
         import threading
         box = {}
@@ -137,7 +139,7 @@ def threaded(hid, inst, kind, nagents, r):
         _Agent.start = _orig_start
     if orch.status == "TIMEOUT":
         rec.ev.insert(0, {"e": "timeout"})      # (the timer belongs to the harness's call of run(): it may fire at any moment)
-    return outcome(hid, inst, doms, dcop, orch, stuck, INFV), {"mode": "threads", "dist": kind, "agents": nagents,
+    return outcome(hid, inst, doms, dcop, orch, stuck, INFV), {"mode": "threads", "dist": kind, "agents": nagents, "collect": collect,
                                                                  "proto": rec.record(hid, dist, over=not stuck, agents=list(dcop.agents))}
 
 
@@ -145,7 +147,12 @@ def run(tier):
     quick = tier == "quick"
     v = Verdict("C22", tier, "model_checking")
     r = random.Random(seed() + 22)
-    insts, gres = AT.gen_instances(SHAPES, [0, 1, 3, -2, INFV], vcalpha=[0, 2], n=2 if quick else 8, seed=seed() + 22)
+    insts, gres = AT.gen_instances(SHAPES, [0, 1, 3, -2, INFV], vcalpha=[0, 2], n=2 if quick else 8, seed=seed() + 22, with_init=True)
+    for i, inst in enumerate(insts):
+        if i % 2:
+            inst["init"] = {}          # half of the instances without initial values
+        elif i % 4 == 0:
+            pass                        # a quarter with TLC-drawn initial values, a quarter (below) with an OPTIMAL assignment as initial values
     v.add_tlc(gres, "instance generation (Gen_Dcop) with the optimum")
     recs, meta = [], {}
     for inst in insts:
